@@ -12,7 +12,12 @@ package htlcswitch
 // channelLink.ackDownStreamPackets) or only half of it, links flapping, and the
 // switch being stopped and started again on the same DB at arbitrary points.
 // There are two incoming channels; either can go on chain and become fully
-// closed while the switch runs (RemoveLink is all the running switch sees).
+// closed while the switch runs (RemoveLink is all the running switch sees;
+// the circuits are purged by the next start). The incoming links forward
+// single adds and batches (one CommitCircuits transaction), and a batch can be
+// interrupted: the link's quit channel closes while ForwardPackets hands the
+// batch - fresh adds and replays - over to a busy switch (the forwarder
+// goroutine is parked deterministically), the link replays in its next epoch.
 // Every operation runs under a capture of the DB wrapper: a consistent image
 // of the DB is taken right after every committed write transaction, and a
 // fresh switch is booted from every image (c07swcrash_test.go).
@@ -29,7 +34,9 @@ package htlcswitch
 // Verdict-bearing oracles (each tied to a sentence of the statement):
 //   at_most_one_forward   - "an incoming HTLC is handed to an outgoing channel
 //                           at most once": handleSwitchPacket(add) calls per
-//                           incoming key over the whole case.
+//                           incoming key over the whole case (model-free; also
+//                           after a mid-life mismatch of the circuit map, when
+//                           all links flap and replay once more).
 //   at_most_one_response  - "at most one settle-or-fail per HTLC is delivered
 //                           back to the incoming channel": a response reaching
 //                           the incoming link after the link locked one in; two
@@ -1155,15 +1162,18 @@ func (x *verifC07swRun) opRes(c *verifC07swCirc) {
 		msg.Failure = &lnwire.FailPermanentChannelFailure{}
 	}
 	err := x.s.ProcessContractResolution(msg)
+	if err == nil {
+		// the contract court has its acknowledgement from here on.
+		x.mu.Lock()
+		c.resAcked = true
+		x.mu.Unlock()
+	}
 	x.barrier()
 	if err != nil {
 		x.log("res(c%d) -> error %v", c.n, err)
 		x.abort("sw_process_resolution_error", err.Error())
 		return
 	}
-	x.mu.Lock()
-	c.resAcked = true
-	x.mu.Unlock()
 	x.store[k] = c
 	what := x.respond(k, c.res)
 	x.log("res(c%d out=%s %s dup=%v) -> stored, model %s", c.n, verifC07KeyStr(k),
@@ -1695,7 +1705,7 @@ func (x *verifC07swRun) runCase(i int) {
 	x.noLock = r.Chance(1, 4)
 	x.restartW = []int{1, 2, 4}[r.Intn(3)]
 	x.inCloseW = []int{0, 0, 1, 1}[r.Intn(4)]
-	x.crashMode = []int{0, 1, 1, 1}[r.Intn(4)]
+	x.crashMode = r.Intn(2)
 	x.fr = r.Fork("crash")
 	vc.Case(i, map[string]any{"circuits": nCirc, "ops": nOps, "nolock": x.noLock,
 		"restartw": x.restartW, "inclosew": x.inCloseW, "crash": x.crashMode})
@@ -1718,6 +1728,7 @@ func (x *verifC07swRun) runCase(i int) {
 	x.trace = x.trace[:0]
 	x.feat = map[string]bool{}
 	x.bad, x.aborted, x.midMismatch = false, false, false
+	x.cur = nil
 	x.life = 1
 	x.store = map[CircuitKey]*verifC07swCirc{}
 	for i := range x.ins {
@@ -1770,8 +1781,10 @@ func (x *verifC07swRun) runCase(i int) {
 		x.compare("after "+x.trace[len(x.trace)-1], false)
 		if x.midMismatch {
 			x.capDrop(cp)
-			x.probeReplay()
 			x.opRestart("midlife-mismatch")
+			if x.s != nil && !x.aborted {
+				x.probeReplay()
+			}
 			if !x.bad {
 				x.abort("sw_midlife_mismatch_not_durable", "restart image agrees")
 			}
